@@ -325,6 +325,17 @@ func genGlobalParams(r *Rand, c *Case) {
 	if r.Bool() {
 		c.Server.Version = r.Pick("15.4", "9.6.0-harness", r.Str(r.Range(1, 6)))
 	}
+	if c.Server.Params != nil && r.Chance(1, 5) {
+		// a configured key that collides with a value the server computes per
+		// connection: the property fixes those values (UTF8, the connecting user,
+		// the configured version), so the computed value must be what is announced
+		for n := r.Range(1, 2); n > 0; n-- {
+			c.Server.Params[r.Pick("session_authorization", "client_encoding", "server_encoding", "server_version")] = r.Pick("postgres", "LATIN1", "0.0")
+		}
+		if _, ok := c.Server.Params["server_version"]; ok && c.Server.Version == "" {
+			delete(c.Server.Params, "server_version") // without a configured Version it is an ordinary key: keep it out of the collision case
+		}
+	}
 }
 
 func init() {
@@ -347,7 +358,7 @@ func init() {
 				c.Server.Auth = "cleartext"
 			}
 			genGlobalParams(r, c)
-			genHistory(r, c, histOpts{simple: true, extended: true, errs: true, params: r.Bool(), closes: true, terminate: true, maxUnits: 5})
+			genHistory(r, c, histOpts{simple: true, extended: true, errs: true, params: r.Bool(), closes: true, terminate: true, multi: true, copy: r.Chance(1, 6), maxUnits: units(tier, 5)})
 			if r.Chance(1, 3) {
 				// Terminate followed by more bytes
 				last := &c.Conns[0].Steps[len(c.Conns[0].Steps)-1]
